@@ -59,7 +59,11 @@ pub fn write_docs(docs: &[Vec<u8>], tag: &str) -> Vec<String> {
     let mut paths = vec![];
     for (i, d) in docs.iter().enumerate() {
         let p = dir.join(format!("{}{}.xml", tag, i));
-        std::fs::write(&p, d).expect("write fibex file");
+        if std::fs::write(&p, d).is_err() {
+            // the directory may have been cleaned up after an earlier section on this thread
+            let _ = std::fs::create_dir_all(&dir);
+            std::fs::write(&p, d).expect("write fibex file");
+        }
         paths.push(p.to_string_lossy().to_string());
     }
     paths
